@@ -106,7 +106,7 @@ func (e *engine) Meta() harness.Meta {
 			"stashed/entered forms are readable Lisp (non-ASCII only in strings, |symbols| and characters)",
 		},
 		FaultKinds:    []string{"process_death", "io_error"},
-		QuickCases:    480,
+		QuickCases:    800,
 		ThoroughCases: 20000,
 	}
 }
